@@ -223,7 +223,12 @@ impl<'tcx> Cx<'tcx> {
     let mut int_s = "null".to_string();
     if matches!(t.kind(), ty::Int(_) | ty::Uint(_) | ty::Bool | ty::Char) {
       let typing_env = ty::TypingEnv::post_analysis(self.tcx, def);
-      if let Const::Val(..) | Const::Ty(..) = c {
+      let evaluable = match c {
+        Const::Val(..) | Const::Ty(..) => true,
+        // named constants of other crates (u8::MAX, i32::MIN, ...): safe to evaluate, no local MIR is stolen
+        Const::Unevaluated(u, _) => !u.def.is_local() && u.promoted.is_none(),
+      };
+      if evaluable {
         if let Some(si) = c.try_eval_scalar_int(self.tcx, typing_env) {
           let size = si.size();
           let v: i128 = if matches!(t.kind(), ty::Int(_)) {
